@@ -48,6 +48,9 @@ PY = "/venv/bin/python"
 NSHARDS = 16
 
 
+SHADOW_PROPS = ("C04", "C08", "C10", "C12", "C13", "C14", "C15", "C16", "C17", "C18", "C19", "C20")
+
+
 def find_check(pid: str):
     pid = pid.upper()
     for p in sorted((VERIF / "checks").glob("c*.py")):
@@ -170,6 +173,9 @@ def run(pid, modname, tier, seed, env, scratch, nshards, t0):
     sys.path.insert(0, str(VERIF))
     mod = importlib.import_module(modname)
     cases = mod.cases(tier, seed)
+    if tier == "thorough" and pid in SHADOW_PROPS and not os.environ.get("VERIF_NO_SHADOW"):
+        # the shadow oracles of vlib.shadow beside every call that the repository's own tests / example scripts make
+        cases += [{"seed": seed, "kind": "shadow", "part": part, "_cost": 60} for part in ("tests", "examples")]
     for i, c in enumerate(cases):
         c["_i"] = i
     nshards = max(1, min(nshards, len(cases), getattr(mod, "MAX_SHARDS", nshards)))
